@@ -158,7 +158,8 @@ func (b *crashBatch) Write() error {
 // crashWAL: the victim's real file WAL behind a counter.
 type crashWAL struct {
 	*consensus.BaseWAL
-	ctl *crashCtl
+	ctl  *crashCtl
+	nrec int
 }
 
 func walTag(m consensus.WALMessage) string {
@@ -191,13 +192,32 @@ func (w *crashWAL) Write(m consensus.WALMessage) error {
 	if !w.ctl.op("wal.write", walTag(m), true) {
 		return nil
 	}
+	defer w.maybeRotate()
 	return w.BaseWAL.Write(m)
 }
 func (w *crashWAL) WriteSync(m consensus.WALMessage) error {
 	if !w.ctl.op("wal.sync", walTag(m), true) {
 		return nil
 	}
+	defer w.maybeRotate()
 	return w.BaseWAL.WriteSync(m)
+}
+
+// walRotateEvery > 0: the head file of the victim's WAL group is rotated (by the group's own size check, as its
+// ticker would do at the size limit) after every walRotateEvery-th record, so that the log of one height is spread
+// over several files, most of them without an #ENDHEIGHT marker
+var walRotateEvery = 0
+
+func (w *crashWAL) maybeRotate() {
+	if walRotateEvery <= 0 || w.ctl.crashed {
+		return
+	}
+	w.nrec++
+	if w.nrec%walRotateEvery == 0 {
+		g := w.BaseWAL.Group()
+		g.VerifSetHeadSizeLimit(1)
+		g.VerifCheckHeadSizeLimit()
+	}
 }
 func (w *crashWAL) FlushAndSync() error {
 	if !w.ctl.op("wal.flush", "flush", true) {
@@ -304,7 +324,7 @@ func (s *crashScenario) build(cutAt int) error {
 	if err := wal.Start(); err != nil {
 		return err
 	}
-	v.CS.VerifSetWAL(&crashWAL{wal, s.ctl})
+	v.CS.VerifSetWAL(&crashWAL{BaseWAL: wal, ctl: s.ctl})
 	s.ctl.onCrash = func() {
 		// what a dead process leaves behind: the database writes done so far, and the WAL files
 		img := memorydb.New()
@@ -941,6 +961,7 @@ func TestCrashSweep(t *testing.T) {
 	w := NewWorld([]int64{1, 1, 1, 1})
 	victim := mbt.EnvInt("CRASH_VICTIM", 1)
 	heights := uint64(mbt.EnvInt("CRASH_HEIGHTS", 3))
+	walRotateEvery = mbt.EnvInt("CRASH_ROTATE", 0)
 	scratch := os.Getenv("VERIF_SCRATCH")
 	modes := strings.Split(os.Getenv("CRASH_MODES"), ",")
 	if os.Getenv("CRASH_MODES") == "" {
